@@ -30,9 +30,9 @@ META = {
     'level_note': (
         'Trusted: Fraction arithmetic, rnum.decode, the harness. Not pinned by the statement, hence not generated or '
         'accepted either way: an optional single leading zero before the point (also when that leaves a bare point for a zero); on which side of $ a leading sign sits; '
-        'a minus on a negative number whose shown digits are all zero; ! with the empty string (blank or nothing); '
+        'a minus on a negative number whose shown digits are all zero; '
         'zero in an exponential field (GW shows no mantissa digits); exponential fields without any mantissa digit '
-        'position; with $$ / **$ and ^^^^ (ruled out by the manual) only width, the % rule (not for negative numbers without a sign position), $, decimals and the value are judged, not which positions hold digits; a trailing comma in a field without point; format strings with several fields. Left-justification in \\ \\ fields '
+        'position; with $$ / **$ and ^^^^ (ruled out by the manual) only width, the % rule (not for negative numbers without a sign position), $, decimals and the value are judged, not which positions hold digits; a trailing comma in a field without point. Format strings with several fields are built so that every field boundary is unambiguous (no two numeric fields adjacent). Left-justification in \\ \\ fields '
         'and the digit positions of the exponential form are taken from the manual. String bytes 0x20-0xFF (control '
         'characters would be interpreted by the output device).'),
     'rule': ('case = (path, field spec, exact value bytes) or (path, string field, string); distinct by that triple; '
@@ -43,6 +43,7 @@ META = {
         'percent_overflow_seen', 'exponent_field_seen', 'tie_seen', 'comma_grouping_seen', 'dollar_seen', 'star_fill_seen',
         'carry_into_new_digit_seen', 'negative_seen', 'path_file', 'path_screen', 'path_cycled',
         'string_cut_seen', 'string_padded_seen', 'string_first_char_seen', 'string_whole_seen',
+        'mixed_formats_seen', 'mixed_adjacent_fields_seen', 'mixed_empty_string_argument_seen', 'mixed_total_length_compared',
     ]},
     'timeout': {'quick': 900, 'thorough': 10800},
 }
@@ -70,7 +71,11 @@ def plan(tier, seed):
             shards.append({'kind': 'numeric', 'n': 6000, 'part': i})
         shards.append({'kind': 'strings', 'n': 6000, 'part': 0})
         shards.append({'kind': 'screen', 'n': 2500, 'part': 0})
+        for i in range(2):
+            shards.append({'kind': 'mixed', 'n': 2500, 'part': i})
     else:
+        for i in range(6):
+            shards.append({'kind': 'mixed', 'n': 25000, 'part': i})
         for i in range(24):
             shards.append({'kind': 'numeric', 'n': 55000, 'part': i})
         for i in range(4):
@@ -94,6 +99,8 @@ def run_shard(spec, res):
         _numeric_file(res, cases)
         if spec['part'] == 0:
             _over_24(res)
+        if spec['part'] == 1:
+            _mixed(res, rng, 0)
     elif kind == 'numeric':
         cases = []
         for _ in range(spec['n']):
@@ -107,6 +114,8 @@ def run_shard(spec, res):
         _strings(res, rng, spec['n'])
     elif kind == 'screen':
         _screen(res, rng, spec['n'])
+    elif kind == 'mixed':
+        _mixed(res, rng, spec['n'])
     else:
         raise ValueError(kind)
 
@@ -371,3 +380,167 @@ def _screen(res, rng, n):
             if sampled < 2:
                 sampled += 1
                 res.sample({'kind': 'screen', 'field': f.spec, 'value': str(rnum.decode(b)), 'output': out})
+
+
+# ---------------------------------------------------------------------------------------------------
+# several fields (string and numeric) and literals in one format string
+
+MIXED_ALPHABET = b'abcXYZ 019.,-+#$%&!_^*'      # no < | > : these delimit the fields
+
+
+def _mixed_string(rng, f):
+    """A string of a length chosen relative to the field: empty, shorter, equal, longer."""
+    w = 1 if f.kind == '!' else (f.inner + 2 if f.kind == '\\' else 4)
+    ln = rng.choice((0, 0, 1, max(0, w - 1), w, w + 1, w + 7, rng.randint(0, 30)))
+    return bytes(rng.choice(MIXED_ALPHABET) for _ in range(min(ln, 60)))
+
+
+def _mixed_directed():
+    """Every string field kind x argument empty / shorter / equal / longer, alone, adjacent and next to numeric fields."""
+    S, N = um.StrField, um.NumField
+    out = []
+    num = N(False, '', '###', True, 2, False, '')
+    for sf in [S('!'), S('&')] + [S('\\', k) for k in (0, 1, 2, 5, 20)]:
+        w = 1 if sf.kind == '!' else (sf.inner + 2 if sf.kind == '\\' else 3)
+        for ln in sorted(set((0, 1, max(0, w - 1), w, w + 1, w + 10))):
+            arg = (b'abcdefghijklmnopqrstuvwxyz' * 2)[:ln]
+            for adjacent in (False, True):
+                out.append(([sf], [arg], adjacent))
+                out.append(([sf, num], [arg, b'\x00\x00\x40\x83'], adjacent))                 # 6
+                out.append(([num, sf, S('!')], [b'\x00\x00\x40\x83', arg, b'Z'], adjacent))
+                out.append(([S('!'), sf, S('\\', 1)], [b'', arg, b'q'], adjacent))
+                out.append(([S('&'), sf, S('!')], [b'', arg, b''], adjacent))
+    return out
+
+
+def _mixed_random(rng):
+    k = rng.randint(2, 4)
+    fields, args = [], []
+    adjacent = rng.random() < 0.5
+    for i in range(k):
+        numeric = rng.random() < 0.4 and not (adjacent and fields and isinstance(fields[-1], um.NumField))
+        if numeric:
+            f = gen.num_field(rng, maxpos=8)
+            if adjacent:
+                # next to another field a number must be sure to fit and to end unambiguously:
+                # fixed-point field with at least one position left of the point, value 0..9
+                f = um.NumField(f.plus_lead, f.prefix, f.ipos or '#', f.dot, f.decimals, False, f.trail)
+                b = rng.choice((c07_enc(rng.randint(0, 9), 4), rng.randint(0, 9).to_bytes(2, 'little')))
+            else:
+                b = gen.value_for(rng, f)
+                if f.expo and rnum.is_zero(b):
+                    b = c07_enc(7, 4)
+            fields.append(f)
+            args.append(b)
+        else:
+            f = gen.str_field(rng)
+            if f.kind == '\\' and f.inner > 20:
+                f = um.StrField('\\', f.inner % 20)
+            fields.append(f)
+            args.append(_mixed_string(rng, f))
+    return fields, args, adjacent
+
+
+def c07_enc(v, n):
+    from ..gen import c07_gen
+    return c07_gen.encode_floor(v, n)
+
+
+def _mixed(res, rng, n, batch=200):
+    from .. import harness
+    cases = _mixed_directed() if n == 0 else []
+    for _ in range(n):
+        cases.append(_mixed_random(rng))
+    sampled = 0
+    with harness.Box() as box:
+        for start in range(0, len(cases), batch):
+            chunk = cases[start:start + batch]
+            box.ex(b'OPEN "O",1,"MIXED.TXT"')
+            wrote = []
+            for fields, args, adjacent in chunk:
+                sep = b'' if adjacent else b'|'
+                fmt = b'<' + sep.join(f.spec.encode('ascii') for f in fields) + b'>'
+                names, assigns = [], []
+                case = ['mixed', fmt, [a.hex() if not isinstance(f, um.StrField) else a for f, a in zip(fields, args)]]
+                try:
+                    for i, (f, a) in enumerate(zip(fields, args)):
+                        if isinstance(f, um.StrField):
+                            box.set('S%d$' % i, a)
+                            names.append(b'S%d$' % i)
+                        else:
+                            var, cv = VAR[len(a)]
+                            box.set('B%d$' % i, a)
+                            nm = b'N%d' % i + var[1:]
+                            assigns.append(nm + b'=' + cv + b'(B%d$)' % i)
+                            names.append(nm)
+                    box.set('F$', fmt)
+                    out = box.ex(b':'.join(assigns + [b'PRINT#1,USING F$;' + b';'.join(names)]))
+                except harness.Internal as e:
+                    res.violation(e.key, str(e), case)
+                    continue
+                if out:
+                    res.violation('using:mixed:error-%s-on-well-formed-format' % harness.err_of(out)[0],
+                                  'PRINT#1,USING %r -> %r' % (fmt, out), case)
+                    box.ex(b'PRINT#1,""')
+                    wrote.append(None)
+                    continue
+                wrote.append((fields, args, adjacent, fmt, case))
+            box.ex(b'CLOSE 1')
+            with open(box.path('MIXED.TXT'), 'rb') as fh:
+                data = fh.read()
+            if data.endswith(b'\x1a'):
+                data = data[:-1]
+            lines = data.split(b'\r\n')
+            if lines and lines[-1] == b'':
+                lines.pop()
+            if len(lines) != len(wrote):
+                res.violation('using:file-line-count', 'expected %d lines, file has %d' % (len(wrote), len(lines)), ['mixed'])
+                continue
+            for item, line in zip(wrote, lines):
+                if item is None:
+                    continue
+                fields, args, adjacent, fmt, case = item
+                res.case(('mixed', fmt, tuple(args)))
+                res.count('mixed_formats_seen')
+                if adjacent:
+                    res.count('mixed_adjacent_fields_seen')
+                if any(isinstance(f, um.StrField) and a == b'' for f, a in zip(fields, args)):
+                    res.count('mixed_empty_string_argument_seen')
+                if sampled < 2:
+                    sampled += 1
+                    res.sample({'kind': 'mixed', 'format': fmt, 'arguments': case[2], 'emitted': line})
+                if not (line.startswith(b'<') and line.endswith(b'>')):
+                    res.violation('using:literal-delimiters', 'format %r: line %r lost the literal < >' % (fmt, line[:80]), case)
+                    continue
+                body = line[1:-1]
+                widths = [um.declared_width(f, a) for f, a in zip(fields, args)]
+                if adjacent:
+                    # every field is sure to fit: the line is the declared widths laid end to end
+                    total = sum(widths)
+                    res.count('mixed_total_length_compared')
+                    if len(body) != total:
+                        res.violation('using:mixed:total-length', 'format %r with %r emits %d characters, the fields declare %d: %r'
+                                      % (fmt, case[2], len(body), total, body[:80]), case)
+                        continue
+                    parts, pos = [], 0
+                    for w in widths:
+                        parts.append(body[pos:pos + w])
+                        pos += w
+                else:
+                    parts = body.split(b'|')
+                    if len(parts) != len(fields):
+                        res.violation('using:mixed:field-count', 'format %r emits %r: %d parts for %d fields'
+                                      % (fmt, body[:80], len(parts), len(fields)), case)
+                        continue
+                    if not any(p.startswith(b'%') for f, p in zip(fields, parts) if not isinstance(f, um.StrField)):
+                        res.count('mixed_total_length_compared')
+                        total = sum(widths) + len(fields) - 1
+                        if len(body) != total:
+                            res.violation('using:mixed:total-length', 'format %r with %r emits %d characters, fields and literals declare %d: %r'
+                                          % (fmt, case[2], len(body), total, body[:80]), case)
+                for f, a, part in zip(fields, args, parts):
+                    if isinstance(f, um.StrField):
+                        for suffix, msg in um.check_string(f, a, part):
+                            res.violation('using:' + suffix, 'in %r: %s' % (fmt, msg), case)
+                    else:
+                        _judge(res, 'PRINT# (mixed format %r)' % fmt, f, a, part)
